@@ -153,6 +153,7 @@ for fam, T, typed, drop, fixed, mis, props, qs in [
             cost=(400 if T in ('E3', 'E12', 'E24') else 120) * (k + 1), inputs=IN_RANGE + ['report?', 'r'])
 add('k2_range', 'drain_item_outlives_e8', 'range_item_outlives_h::<E8>(false)', props=['C03'], tier='q', kind='finding', attrs=U5, cost=10)
 add('k2_range', 'splice_item_outlives_e8', 'range_item_outlives_h::<E8>(true)', props=['C03'], tier='q', kind='finding', attrs=U5, cost=10)
+add('k2_range', 'element_mut_replace_e8', 'element_mut_replace_h::<E8>()', props=['C03'], tier='q', kind='finding', attrs=U5, cost=10)
 add('k2_range', 'splice_forget_e8', 'splice_h::<E8>(false, true, FORGET, false, false, 9, mk_e8)', props=['C07', 'C03'], tier='q',
     kind='full', attrs=U5, cost=5, inputs=IN_RANGE)
 add('k2_range', 'splice_typed_forget_e8', 'splice_h::<E8>(true, false, FORGET, false, false, 9, mk_e8)', props=['C07'], tier='q',
@@ -417,7 +418,7 @@ ASSUMPTIONS = [
     'domain: len <= cap <= 2^20 elements per vector (harness parameter), element sizes instantiated from {0,1,2,3,8,12,16,24,160}',
     'memory primitives are replaced by their contracts (recorder stubs) in K2 harnesses: copy_bytes (proved equivalent to memmove by k1_lib::copy_bytes_memmove_*), ptr::copy, ptr::copy_nonoverlapping (trusted), element drop_fn / clone_fn fields (recorders; the real closures are checked by bounded K1 harnesses)',
     'storage backend in K2 harnesses is GhostMem, a user-defined backend that relocates on every capacity change; built-in backends have their own K1/K3 harnesses',
-    'drain/splice contracts: elements yielded so far are owned (consumed or still held) by the caller and no yielded handle is used after its iterator was dropped; the history that breaks this in safe code is the open known finding D15 (known_findings.json), exhibited by the finding-kind harnesses k2_range::{drain,splice}_item_outlives_e8',
+    'drain/splice contracts: elements yielded so far are owned (consumed or still held) by the caller and no yielded handle is used after its iterator was dropped; the history that breaks this in safe code is the open known finding D15 (known_findings.json), exhibited by the finding-kind harnesses k2_range::{drain,splice}_item_outlives_e8; likewise D16 (k2_range::element_mut_replace_e8): mutable element references are used through the value interface only, the owning handle behind DerefMut is not replaced',
     'termination is not proved (Kani); every harness is loop-free after stubbing / loop invariants, except loops with a stated unwind bound',
 ]
 
@@ -429,7 +430,7 @@ PROPS['C01'] = dict(level='proof', lemmas=['verus/lemmas.rs'], functions=[
     explanation='Each element-wise operation of the real code is verified, from every representation-invariant state (symbolic len <= cap), against the witness form of Vec\'s semantics; histories follow by induction (Verus lemma history_refines).')
 PROPS['C02'] = dict(level='proof', lemmas=['verus/lemmas.rs'], functions=['AnyVec::{drain,splice}', 'ops::drain::Drain::{new,drop}', 'ops::splice::Splice::{new,drop}', 'iter::Iter cursor', 'utils::{move_elements_at,drop_elements_range,element_mut_ptr_at}'],
     explanation='drain/splice contracts from every state, every range, every consumption state (f front, b back).')
-PROPS['C03'] = dict(level='proof', lemmas=['verus/lemmas.rs'], functions=['every K2 contract (ownership accounting at the witness)'], explanation='destroyed + handed out + visible == 1 for every value, in every operation contract. Holds for every history in which no element handle yielded by the type-erased drain/splice is used after its iterator was dropped; that history (safe code) breaks C03 on the pinned tree and is the open known finding D15 (known_findings.json), reported as KNOWN-FINDING.')
+PROPS['C03'] = dict(level='proof', lemmas=['verus/lemmas.rs'], functions=['every K2 contract (ownership accounting at the witness)'], explanation='destroyed + handed out + visible == 1 for every value, in every operation contract. Holds for every history in which no element handle yielded by the type-erased drain/splice is used after its iterator was dropped; that history (safe code) breaks C03 on the pinned tree and is the open known finding D15; a second safe-code history (owning handle swapped out of an ElementMut through DerefMut) is the open known finding D16 (both in known_findings.json, reported as KNOWN-FINDING).')
 PROPS['C05'] = dict(level='proof', lemmas=[], functions=['every primitive recorder precondition over the relocating GhostMem'], explanation='every primitive call lies inside the current region.')
 PROPS['C06'] = dict(level='proof', lemmas=[], functions=['panic-view invariant at every call-out'], explanation='panic-view invariant at every call-out; misreporting replacement iterator.')
 PROPS['C07'] = dict(level='proof', lemmas=[], functions=['mem::forget of Pop/Remove/SwapRemove/Drain/Splice'], explanation='forget harnesses.')
